@@ -117,6 +117,7 @@ class BaseSamples:
             log_prior=self.log_prior,
             log_q=self.log_q,
             xp=np,
+            dtype=dtype,
         )
 
     def to_namespace(self, xp, dtype: Any | str | None = None):
@@ -574,6 +575,7 @@ class Samples(BaseSamples):
             log_evidence_error=self.log_evidence_error
             if self.log_evidence_error is not None
             else None,
+            dtype=self.dtype,
         )
 
     def to_dataframe(self, include: list[str] | None = None) -> "pd.DataFrame":
@@ -723,6 +725,7 @@ class SMCSamples(BaseSamples):
             log_evidence_error=self.log_evidence_error
             if self.log_evidence_error is not None
             else None,
+            dtype=self.dtype,
         )
 
     def __getitem__(self, idx):
